@@ -45,7 +45,11 @@ func ParseInputLine(inputLine string) {
 		}
 		fmt.Println("readyok")
 	} else if inputLine == "eval" {
-		fmt.Println(Evaluate(posGen.getTopPos(), 0, true))
+		if posGen == nil {
+			fmt.Println("No position set to evaluate")
+		} else {
+			fmt.Println(Evaluate(posGen.getTopPos(), 0, true))
+		}
 	} else if inputLine == "quit" {
 		Quit = true
 	} else if strings.HasPrefix(inputLine, uPosition) {
@@ -156,7 +160,10 @@ func doPosition(positionCommand string) {
 	if movesIdx == -1 {
 		parsePosition(positionCommand)
 	} else {
-		parsePosition(strings.TrimSpace(positionCommand[:movesIdx]))
+		// the moves belong to the position given with them: without it there is nothing to apply them to
+		if !parsePosition(strings.TrimSpace(positionCommand[:movesIdx])) {
+			return
+		}
 
 		movesString := strings.TrimSpace(positionCommand[movesIdx+len(uMoves):])
 		moveStrings := strings.Split(movesString, " ")
@@ -391,7 +398,8 @@ func parseMoveString(moveStr string) (Move, error) {
 	return NewMove(from, to), nil
 }
 
-func parsePosition(positionWithoutMoves string) {
+// Sets the current position; returns false (and keeps the old one) if the FEN is rejected.
+func parsePosition(positionWithoutMoves string) bool {
 	if strings.HasPrefix(positionWithoutMoves, uStartpos) {
 		posGen = NewGenerator()
 	} else {
@@ -403,8 +411,9 @@ func parsePosition(positionWithoutMoves string) {
 		newPosGen, err := NewGeneratorFromFen(fenString)
 		if err != nil {
 			fmt.Println("invalid FEN:", err)
-		} else {
-			posGen = newPosGen
+			return false
 		}
+		posGen = newPosGen
 	}
+	return true
 }
